@@ -56,6 +56,10 @@ def gen_c15(r):
     k = r.choice(["int", "list", "mask", "rlmask", "slice", "slice", "slice", "slice", "windows", "all"])
     if n > 20:
         k = r.choice(["int", "list", "list", "slice"])
+    if k == "list" and r.random() < 0.25:
+        w = r.randint(1, 3)
+        idx = ["list2d", [[r.randint(-n, n - 1) for _ in range(w)] for _ in range(r.randint(1, 3))]]
+        return ["rl_getitem", dt, a, idx], {"via": r.choice(RLV), "mlayout": r.choice(["C", "F", "T"]), "spelling": r.choice(["plain", "tuple"])}, False
     if k == "int":
         idx = ["int", r.randint(-n - 1, n)]
     elif k == "list":
